@@ -8,6 +8,15 @@ from ..layouts import lay1
 NANK = -777777777
 NAN64 = 0x7FF8000000000000
 NAN32 = 0x7FC00000
+# distinct missing values of the float types (quiet NaNs differing in sign and payload): variant j has
+# model key NANK - j; the model's znan accepts NANK-15 .. NANK.  Option types have the single None.
+NAN64S = [0x7FF8000000000000, 0xFFF8000000000000, 0x7FF8000000000123, 0xFFF800000000BEEF]
+NAN32S = [0x7FC00000, 0xFFC00000, 0x7FC00123, 0xFFC0BEEF]
+UNKNOWN_NAN = NANK - 9
+
+
+def is_missing(k):
+    return NANK - 15 <= k <= NANK
 QUICK_ETS = ["f64", "oi32", "f32", "ou8", "oi128", "on64"]
 ALL_ETS = QUICK_ETS + ["ou16", "ou32", "ou64", "ou128", "oi8", "oi16", "oi64", "on32"]
 
@@ -16,13 +25,13 @@ def base_et(et):
     return et[1:] if et.startswith("o") else et
 
 
-def tok_key(et, v):
-    """v: small positive int or None (missing)"""
+def tok_key(et, v, var=0):
+    """v: small positive int or None (missing; var selects the NaN variant of a float type)"""
     if v is None:
         if et == "f64":
-            return str(NAN64), NANK
+            return str(NAN64S[var % 4]), NANK - var % 4
         if et == "f32":
-            return str(NAN32), NANK
+            return str(NAN32S[var % 4]), NANK - var % 4
         return "N", NANK
     b = base_et(et)
     cd = Codec(b)
@@ -30,12 +39,13 @@ def tok_key(et, v):
     return t, cd.key_of_tok(t)
 
 
-def mk_remove_case(et, pattern, stride, off, tail):
-    """pattern: list of None / int"""
+def mk_remove_case(et, pattern, stride, off, tail, nanvar=0):
+    """pattern: list of None / int; nanvar: the i-th element, if missing, is NaN variant (nanvar + i) % 4
+    when nanvar > 0, the canonical NaN when nanvar == 0"""
     lay = lay1(len(pattern), stride, off, tail)
     toks, keys = [], []
-    for v in pattern:
-        t, k = tok_key(et, v)
+    for i, v in enumerate(pattern):
+        t, k = tok_key(et, v, (nanvar + i) if nanvar else 0)
         toks.append(t)
         keys.append(k)
     gtoks = [tok_key(et, 100 + (k % 20))[0] for k in range(lay.parent_len())]
@@ -53,11 +63,11 @@ def key_of(et, tok):
     if b in ("f64", "n64"):
         bits = int(tok)
         if (bits >> 52) & 0x7FF == 0x7FF and bits & ((1 << 52) - 1):
-            return NANK
+            return NANK - NAN64S.index(bits) if bits in NAN64S else UNKNOWN_NAN
     if b in ("f32", "n32"):
         bits = int(tok)
         if (bits >> 23) & 0xFF == 0xFF and bits & ((1 << 23) - 1):
-            return NANK
+            return NANK - NAN32S.index(bits) if bits in NAN32S else UNKNOWN_NAN
     return Codec(b).key_of_tok(tok)
 
 
@@ -94,17 +104,19 @@ class C04(Prop):
                         k += 1
                         if n >= 10 and k % 3:
                             continue
-                        yield mk_remove_case(ets[k % len(ets)], pattern, stride, off, (k // 7) % 2)
+                        yield mk_remove_case(ets[k % len(ets)], pattern, stride, off, (k // 7) % 2, nanvar=(k // 3) % 5)
         for _ in range(200 if tier == "quick" else 12000):
             n = rng.range(9, 60)
             dens = rng.choice([1, 2, 5, 9])
             pattern = [None if rng.below(10) < dens else i + 1 for i in range(n)]
-            yield mk_remove_case(rng.choice(ets), pattern, rng.choice([1, 2, 3, -1, -2, -3, 5, -4]), rng.below(3), rng.below(2))
+            yield mk_remove_case(rng.choice(ets), pattern, rng.choice([1, 2, 3, -1, -2, -3, 5, -4]), rng.below(3), rng.below(2), nanvar=rng.below(5))
 
     def corpus(self):
         # D3 witness (fixed): Option lane of stride 2 with pattern [v; None; v]
         return [mk_remove_case("oi32", [1, None, 2], 2, 0, 0), mk_remove_case("oi32", [1, None, 2], -2, 1, 1),
-                mk_remove_case("f64", [1, None, 2], 2, 0, 0), mk_remove_case("on64", [None, 1, 2, None, 3], 3, 1, 0)]
+                mk_remove_case("f64", [1, None, 2], 2, 0, 0), mk_remove_case("on64", [None, 1, 2, None, 3], 3, 1, 0),
+                # a negative NaN with a payload in front of a value: the swap must keep its bits
+                mk_remove_case("f64", [None, 1], 1, 0, 0, nanvar=1), mk_remove_case("f32", [None, None, 1, 2], -1, 1, 0, nanvar=2)]
 
     def parse(self, case):
         secs = [s.split() for s in case.raw.split("|")]
@@ -129,7 +141,7 @@ class C04(Prop):
         out = []
         keys, cells, buf = case.keys, case.cells, case.buf_k
         off, n, stride = st["v1"]
-        want = [x for x in keys if x != NANK]
+        want = [x for x in keys if not is_missing(x)]
         ret_cells = [off + k * stride for k in range(n)]
         if n != len(want):
             out.append("length: returned view has %d elements, %d non-missing in the input" % (n, len(want)))
@@ -138,7 +150,7 @@ class C04(Prop):
                 [c for c in ret_cells if c not in cells], cells))
             return out
         got = [st["b1"][c] for c in ret_cells]
-        if any(x == NANK for x in got):
+        if any(is_missing(x) for x in got):
             out.append("not-nan: a missing value is handed out as a not-NaN element")
         if sorted(got) != sorted(want):
             out.append("multiset: returned elements %s, non-missing input elements %s" % (sorted(got), sorted(want)))
@@ -161,7 +173,7 @@ class C04(Prop):
         return "m_remove_nan %s %d %d %s" % (zlist(case.buf_k), off, n, "(%d)" % st if st < 0 else str(st))
 
     def nontrivial(self, case):
-        return any(k == NANK for k in case.keys) and any(k != NANK for k in case.keys)
+        return any(is_missing(k) for k in case.keys) and any(not is_missing(k) for k in case.keys)
 
     def key(self, case):
         return (case.et, tuple(case.keys), case.lay)
